@@ -370,9 +370,21 @@ def r19d(ctx, run):
 def r19e(ctx, run):
     f = ctx.syn.fn("fn_ty_to_abi", X)
     lets = {canon(s["p"]).replace("mut ", ""): s for s in f.body["s"] if s["k"] == "local" and s.get("init") is not None}
+    # named constants of the file (and of the function) are resolved
+    file_consts = {}
+    for _f, citem in ctx.syn.items_of("const", X):
+        v_ = synq.int_value(citem.get("e")) if citem.get("e") is not None else None
+        if v_ is not None:
+            file_consts[citem.get("name") or citem.get("ident")] = v_
+
+    def const_value(e):
+        v_ = synq.int_value(e)
+        if v_ is None and e.get("k") == "path":
+            v_ = file_consts.get(e["p"].rsplit("::", 1)[-1])
+        return v_
     for name, want, what in (("int_regs", 6, "INTEGER argument registers (rdi rsi rdx rcx r8 r9)"), ("sse_regs", 8, "SSE argument registers (xmm0-7)")):
         s = [v for k, v in lets.items() if k.startswith(name)]
-        val = synq.int_value(s[0]["init"]) if s else None
+        val = const_value(s[0]["init"]) if s else None
         run.check(val == want, f.site(s[0]["ln"] if s else None), "%s = %s" % (name, val), "fn_ty_to_abi", "regs:" + name, f.file, s[0]["ln"] if s else f.ln,
                   "%s starts at %s; System V has %d %s" % (name, val, want, what))
     # indirect return consumes one INTEGER register (hidden pointer in rdi)
@@ -416,6 +428,7 @@ def r19e(ctx, run):
                      "stride": lambda i, r, a: 12, "size": lambda i, r, a: 12,
                      "next_multiple_of": lambda i, r, a: (r + a[0] - 1) // a[0] * a[0] if isinstance(r, int) and isinstance(a[0], int) and a[0] > 0 else Term("rounded", r, a[0])})
         it.consts.update({"Class::Int": cls("Int"), "Class::Sse": cls("Sse")})
+        it.consts.update(file_consts)
         orig = it.eval
 
         def ev(e, env):
